@@ -613,7 +613,11 @@ Proof.
   induction l as [|c t IH]; intros s; cbn [run_callbacks]; [cbn; discriminate|].
   pose proof (run_cb_not_empty fuel codes e c s) as N.
   destruct (run_cb fuel codes e c s) as [s1 r]. cbn [snd] in N.
-  destruct r; try (cbn; congruence); apply IH.
+  pose proof (IH s1) as Y.
+  destruct r; try congruence; try apply IH;
+    (destruct (is_stop_cb c && is_exit _);
+     [destruct (run_callbacks fuel codes e t s1) as [s2 r2]; cbn [snd] in Y; destruct r2; cbn; congruence
+     |cbn; congruence]).
 Qed.
 
 (* step answers REmpty only on an empty agenda *)
